@@ -57,7 +57,7 @@ def sumBody (res : Ty) (l : List Val) : BodyOut :=
   | .int k => .ret [.int k s]
   | _ => .ret [.f64 (Num.ofInt s)]
 
-def allTrue : Shape := { recovers := true, arityChecked := true }
+def allTrue : Shape := { recovers := true, arityChecked := true, nilPanicReported := true }
 
 /-- one bridged call on already evaluated arguments: result and the vector the Go function received -/
 def bridged (f : String) (vs : List Int) : Option (Int × List Val) :=
@@ -106,5 +106,18 @@ def evalArgs (fns : List FnDef) : Nat → List (String × Int) → Args → Log 
     | some (v, log) => (evalArgs fns fuel env rest log).map fun (vs, log) => (v :: vs, log)
     | none => none
 end
+
+/-- The `callB` clause of the reference semantics, spelled out (a restatement of the definition, not a
+    fact about `resolveFunction`; the evidence that the interpreter follows this semantics is the
+    correspondence run in mode R): whatever the evaluation of the argument expressions does — re-enter
+    this call site, log other calls — the Go function of this activation is run on the values `vs` of
+    its own argument expressions. -/
+theorem reference_semantics_callB (fns : List FnDef) (fuel : Nat)
+    (env : List (String × Int)) (f : String) (args : Args) (log log' : Log)
+    (vs : List Int) (r : Int) (recv : List Val)
+    (ha : evalArgs fns fuel env args log = some (vs, log'))
+    (hb : bridged f vs = some (r, recv)) :
+    eval fns (fuel + 1) env (.callB f args) log = some (r, log' ++ [recv]) := by
+  simp [eval, ha, hb]
 
 end Ecal.Reentry
